@@ -205,6 +205,123 @@ func scenarioFresh(c *vrun.Ctx) {
 		}
 		env.close()
 	}
+	// ---- one key whose origin answer changes category between requests (C04 "at any point of a
+	// request history"): the decision is taken per response; nothing remembered about an earlier
+	// answer for the key may keep a later storable answer out of the store, or an unstorable one in ----
+	type kind struct {
+		name   string
+		status int
+		cc     string
+	}
+	kinds := []kind{{"S:max-age=600", 200, "max-age=600"}, {"N:no-store", 200, "no-store"}, {"P:private", 200, "private"}, {"Z:max-age=0", 200, "max-age=0"}, {"E:503", 503, "max-age=600"}, {"F:404", 404, "max-age=600"}}
+	for _, ignore := range []bool{false, true} {
+		env := newEnv(envOpts{Backend: p.Backend, IgnoreCC: ignore, DefaultMaxAgeS: 3600})
+		nk := len(kinds)
+		for hi := 0; hi < nk*nk*nk*nk; hi++ {
+			caseNo++
+			if !c.Mine(caseNo) {
+				continue
+			}
+			c.Case()
+			uri := env.uniq("v")
+			name := "v" + strconv.Itoa(env.seq)
+			res := &vnet.Res{Name: name, Size: 24, NoConditionals: true}
+			env.origin.Put(uri, res)
+			var names []string
+			stored := false
+			storedV := 0
+			pattern := ""
+			x := hi
+			for step := 0; step < 4; step++ {
+				k := kinds[x%nk]
+				x /= nk
+				names = append(names, k.name)
+				vtime.Advance(time.Second)
+				if step > 0 {
+					env.origin.Bump(uri)
+				}
+				res.Status, res.Headers = k.status, vnet.H{{"Cache-Control", k.cc}}
+				resp, reqs := env.do("GET", uri, nil, "")
+				contact := len(reqs) > 0
+				desc := fmt.Sprintf("ignore=%v; origin answers of one URL, requests 1 s apart: %v", ignore, names)
+				if stored {
+					pattern += "H"
+					if contact {
+						c.SetCase(desc)
+						c.Violation("C04/fresh/history/not-reused-while-fresh", fmt.Sprintf("request %d contacted the origin although a storable 200 (version %d) was stored %d s earlier | %s", step+1, storedV, 1, desc), nil)
+						break
+					}
+					if cand, why := vnet.Identify([]byte(resp.Body), env.origin.Candidates()); why != "" || cand.V != storedV {
+						c.SetCase(desc)
+						c.Violation("C04/fresh/history/stored-body-not-served", fmt.Sprintf("request %d was answered from the store with %v %s, stored was version %d | %s", step+1, cand, why, storedV, desc), nil)
+						break
+					}
+					continue
+				}
+				pattern += "C"
+				if !contact {
+					c.SetCase(desc)
+					c.Violation("C04/fresh/history/reused-unstorable", fmt.Sprintf("request %d was answered without contacting the origin although nothing storable had been received | %s", step+1, desc), nil)
+					break
+				}
+				if resp.Status != k.status {
+					c.SetCase(desc)
+					c.Violation("C04/fresh/history/wrong-status", fmt.Sprintf("request %d: origin answered %d, client received %d | %s", step+1, k.status, resp.Status, desc), nil)
+					break
+				}
+				if k.status == 200 && (ignore || k.name[0] == 'S') {
+					stored, storedV = true, res.Version
+				}
+			}
+			c.Outcome(fmt.Sprintf("history ignore=%v %v %s", ignore, names, pattern))
+		}
+		env.close()
+	}
+	// ---- the origin's clock runs ahead of the proxy's (its Date lies in the proxy's future), or the
+	// response has no Date at all: Age and ttl of later hits still follow the time the entry was
+	// stored (C03: "its Age and ttl are consistent with the time it was stored") ----
+	for _, skew := range []time.Duration{0, 5 * time.Second, 300 * time.Second, 2 * time.Hour} {
+		for _, noDate := range []bool{false, true} {
+			if noDate && skew != 0 {
+				continue
+			}
+			caseNo++
+			if !c.Mine(caseNo) {
+				continue
+			}
+			c.Case()
+			env := newEnv(envOpts{Backend: p.Backend, DefaultMaxAgeS: 3600})
+			uri := env.uniq("k")
+			env.origin.Put(uri, &vnet.Res{Name: "k" + strconv.Itoa(env.seq), Size: 24, DateSkew: skew, NoDate: noDate, Headers: vnet.H{{"Cache-Control", "max-age=600"}}})
+			desc := fmt.Sprintf("origin Date %v ahead of the proxy's clock (no Date: %v), max-age=600, hits 3 s, 100 s and 599 s after storing", skew, noDate)
+			env.do("GET", uri, nil, "")
+			storedAt := vtime.Peek()
+			for _, at := range []time.Duration{3 * time.Second, 100 * time.Second, 599 * time.Second} {
+				vtime.Advance(storedAt.Add(at).Sub(vtime.Peek()))
+				resp, reqs := env.do("GET", uri, nil, "")
+				c.Outcome(fmt.Sprintf("skew=%v nodate=%v at=%v contact=%v Age=%s", skew, noDate, at, len(reqs) > 0, resp.Header.Get("Age")))
+				if len(reqs) > 0 {
+					c.SetCase(desc)
+					c.Violation("C03/fresh/skew/contact-while-fresh", fmt.Sprintf("the origin was contacted %v after storing a response with max-age=600 | %s", at, desc), nil)
+					break
+				}
+				a, err := strconv.Atoi(resp.Header.Get("Age"))
+				if err != nil || time.Duration(a)*time.Second < at-time.Second || time.Duration(a)*time.Second > at+time.Second {
+					c.SetCase(desc)
+					c.Violation("C03/fresh/skew/age", fmt.Sprintf("Age=%q on a hit %v after the entry was stored | %s", resp.Header.Get("Age"), at, desc), nil)
+				}
+				if m := reTTL.FindStringSubmatch(resp.Header.Get("Cache-Status")); m != nil {
+					ttl, _ := strconv.Atoi(m[1])
+					left := 600*time.Second - at
+					if time.Duration(ttl)*time.Second < left-time.Second || time.Duration(ttl)*time.Second > left+time.Second {
+						c.SetCase(desc)
+						c.Violation("C03/fresh/skew/ttl", fmt.Sprintf("ttl=%d on a hit %v after storing, %v of the lifetime is left | %s", ttl, at, left, desc), nil)
+					}
+				}
+			}
+			env.close()
+		}
+	}
 	c.Res.Bounds["header_classes"] = len(classes)
 	c.Res.Bounds["policies"] = len(policies) * len(defaults)
 	c.Res.Bounds["gap_patterns"] = 9
